@@ -1,5 +1,4 @@
 /-- translated from the source text of `fieldcompare/_cli/_common.py: _bool_to_exit_code` -/
--- v0 = value
 def c04BoolToExitCodeSrc : Fc.PyLite.Fn := {
   name := "_bool_to_exit_code"
   params := ["v0"]
@@ -8,7 +7,6 @@ def c04BoolToExitCodeSrc : Fc.PyLite.Fn := {
   ] }
 
 /-- translated from the source text of `fieldcompare/_cli/_file_comparison.py: FileComparison._parse_status` -/
--- v0 = self, v1 = status
 def c04ParseStatusSrc : Fc.PyLite.Fn := {
   name := "FileComparison._parse_status"
   params := ["v0", "v1"]
@@ -32,7 +30,6 @@ def c04ParseStatusSrc : Fc.PyLite.Fn := {
   ] }
 
 /-- translated from the source text of `fieldcompare/_cli/_test_suite.py: TestStatus.__bool__` -/
--- v0 = self
 def c04TestStatusBoolSrc : Fc.PyLite.Fn := {
   name := "TestStatus.__bool__"
   params := ["v0"]
@@ -41,7 +38,6 @@ def c04TestStatusBoolSrc : Fc.PyLite.Fn := {
   ] }
 
 /-- translated from the source text of `fieldcompare/_cli/_test_suite.py: TestSuite.__bool__` -/
--- v0 = self, v1 = t
 def c04TestSuiteBoolSrc : Fc.PyLite.Fn := {
   name := "TestSuite.__bool__"
   params := ["v0"]
@@ -53,7 +49,6 @@ def c04TestSuiteBoolSrc : Fc.PyLite.Fn := {
   ] }
 
 /-- translated from the source text of `fieldcompare/_cli/_test_suite.py: TestSuite.status` -/
--- v0 = self
 def c04TestSuiteStatusSrc : Fc.PyLite.Fn := {
   name := "TestSuite.status"
   params := ["v0"]
@@ -65,7 +60,6 @@ def c04TestSuiteStatusSrc : Fc.PyLite.Fn := {
   ] }
 
 /-- translated from the source text of `fieldcompare/_cli/_file_comparison.py: FileComparison._compare_field_sequences._merge_test_suites._merged_result` -/
--- v0 = r1, v1 = r2, v2 = r
 def c04MergedResultSrc : Fc.PyLite.Fn := {
   name := "FileComparison._compare_field_sequences._merge_test_suites._merged_result"
   params := ["v0", "v1"]
